@@ -27,9 +27,9 @@ ASSUMPTIONS = ['content = k, strand mode, sample names and rows; ska_version and
                'single faults only: one truncation or one flipped bit per copy',
                'an abort (allocation failure) is a rejection with an error, counted separately']
 REQUIRED = {'quick': ['cli_copies_judged', 'lib_copies_judged', 'files_64bit', 'files_128bit', 'accepted_identical', 'rejected',
-                      'subcommand_samples', 'crash_points_kill', 'crash_points_enospc'],
+                      'subcommand_samples', 'crash_points_kill', 'crash_points_enospc', 'memcheck_runs'],
             'thorough': ['cli_copies_judged', 'lib_copies_judged', 'files_64bit', 'files_128bit', 'accepted_identical', 'rejected',
-                         'subcommand_samples', 'multi_frame_files', 'crash_points_kill', 'crash_points_enospc', 'asan_copies_judged', 'targeted_copies_judged']}
+                         'subcommand_samples', 'multi_frame_files', 'crash_points_kill', 'crash_points_enospc', 'asan_copies_judged', 'targeted_copies_judged', 'memcheck_runs']}
 MEM_GB = 3
 
 
@@ -156,8 +156,43 @@ def prepare(tier, seed, rng, scale, ctx):
         elif tier == 'quick' and f['name'] == 'ambcrash64':
             for cmd, fault in (('maskweed', 'kill'), ('delete', 'kill'), ('maskweed', 'enospc')):
                 descs.append({'route': 'crash', 'cmd': cmd, 'fault': fault, 'skf_file': f['path'], 'name': f['name'], 'k': f['k']})
+    for f in files:
+        if f['name'] in ('tiny64', 'tiny128', 'snps64', 'empty'):
+            for j in range(1 if tier == 'quick' else 6):
+                descs.append({'route': 'memcheck', 'n': 6 if tier == 'quick' else 14, 'seed': rng.getrandbits(32), 'skf_file': f['path'], 'name': f['name'], 'k': f['k']})
     rng.shuffle(descs)
     return descs
+
+
+def run_memcheck(desc, ctx, res):
+    """The command line under valgrind memcheck on damaged copies: the decoders of damaged data are where an invalid read or a use
+    of uninitialised memory would hide (Rust's own checks do not cover the compression and serialisation libraries' unsafe code)."""
+    if not shutil.which('valgrind'):
+        raise Inconclusive('valgrind not available')
+    rng = random.Random(desc['seed'])
+    data = open(desc['skf_file'], 'rb').read()
+    G.write_fa(ctx.path('mo.fa'), [G.rseq(rng, 3 * desc['k'])])
+    o = ctx.sh(ctx.ska, 'nk', desc['skf_file'])
+    rcflag = 'rc=true' in o.stdout
+    if G.ska_build(ctx, ctx.path('mo'), [ctx.path('mo.fa')], desc['k'], rcflag).returncode != 0:
+        raise Inconclusive('aux build failed')
+    copies = [('intact', data)]
+    for _ in range(desc['n']):
+        mode = 'trunc' if rng.random() < 0.3 else 'flip'
+        i = rng.randrange(len(data)) if mode == 'trunc' else rng.randrange(len(data) * 8)
+        copies.append(('%s at %d' % (mode, i), damaged(data, mode, i)))
+    for what, blob in copies:
+        ctx.write('v.skf', blob)
+        for cmd in (['nk', '--full-info', ctx.path('v.skf')], ['align', ctx.path('v.skf'), '--filter', 'no-filter', '--min-freq', '0'],
+                    ['distance', ctx.path('v.skf')], ['merge', ctx.path('mo.skf'), ctx.path('v.skf'), '-o', ctx.path('vm')]):
+            p = ctx.sh('valgrind', '-q', '--error-exitcode=99', ctx.ska, *cmd, timeout=600)
+            res.evals += 1
+            res.count('memcheck_runs')
+            if p.returncode == 99 or 'Invalid read' in p.stderr or 'Invalid write' in p.stderr or 'uninitialised' in p.stderr:
+                res.violate('C19:memcheck:%s:%s' % (cmd[0], desc['name']), '%s: valgrind memcheck reports an error in `ska %s` on a copy with %s: %s'
+                            % (desc['name'], cmd[0], what, ' '.join(l for l in p.stderr.split('\n') if l.startswith('=='))[:300]),
+                            {'file': desc['name'], 'damage': what, 'cmd': cmd[0]})
+    res.nontrivial.append(fingerprint(['memcheck', desc['name'], desc['seed']]))
 
 
 # note: files marked 'targeted' are not enumerated completely; coverage_extra says so
@@ -493,6 +528,8 @@ def run_case(desc, ctx):
         run_sub(desc, ctx, res)
     elif route == 'crash':
         run_crash(desc, ctx, res)
+    elif route == 'memcheck':
+        run_memcheck(desc, ctx, res)
     elif route == 'meta':
         o = ctx.sh(ctx.ska, 'nk', '--full-info', desc['skf_file'])
         hdr, T = M.parse_nk(o.stdout)
